@@ -485,9 +485,25 @@ func ToQuantity(ctx *expr.Context, input system.Collection, args ...expr.Express
 			result := system.MustParseQuantity(res[0], res[1])
 			return system.Collection{result}, nil
 		}
-		res := strings.SplitN(string(value), " ", 2)
-		unit := strings.Trim(res[1], "'")
-		result := system.MustParseQuantity(res[0], unit)
+		// take the number and the unit from the regular expression that accepted the string:
+		// splitting at the first blank fails when there is no unit ("5"), no blank ("5'mg'",
+		// "5\tmg") or a blank inside or before a quoted unit ("5  'a b'")
+		number := matches[regex.SubexpIndex("value")]
+		unit := matches[regex.SubexpIndex("unit")]
+		if unit == "" {
+			unit = DefaultQuantityUnit
+			if t := matches[regex.SubexpIndex("time")]; t != "" {
+				unit = t
+				// blanks after the first one have always been kept in an unquoted unit
+				if res := strings.SplitN(string(value), " ", 2); len(res) == 2 {
+					unit = res[1]
+				}
+			}
+		}
+		result, err := system.ParseQuantity(number, unit)
+		if err != nil {
+			return system.Collection{}, nil
+		}
 		return system.Collection{result}, nil
 	case system.Boolean:
 		if value {
